@@ -187,7 +187,7 @@ impl World for WorldI {
                         InBody::Deploy {
                             id: match rng.weighted(&[11, 4, 3, 2]) { 0 => InId::Fresh(rng.below(6) as u8), 1 => InId::Taken(rng.below(4) as u8), 2 => InId::CanonicalOf(rng.below(4) as u8), _ => InId::LocalOf { caller: rng.below(4) as u8, salt: rng.below(3) as u8 } },
                             meta: gen_meta(rng, true),
-                            minter: match rng.weighted(&[5, 4, 1]) { 0 => InMinter::None, 1 => InMinter::User(rng.below(4) as u8), _ => InMinter::Garbage },
+                            minter: match rng.weighted(&[5, 4, 1, 1]) { 0 => InMinter::None, 1 => InMinter::User(rng.below(4) as u8), 2 => InMinter::Garbage, _ => InMinter::NonAddress(rng.below(4) as u8) },
                         }
                     } else {
                         InBody::Transfer {
@@ -268,6 +268,12 @@ impl World for WorldI {
             };
             ctx.trace_str(eff.kind());
             run_op(&mut ex, ctx, &eff);
+            if i % 3 == 1 && !ctx.stopped() {
+                let mut addrs = ex.h.clone();
+                addrs.extend(ex.tok_addr.iter().cloned());
+                let its = ex.its();
+                crate::surface::probe_unlisted(ctx, &mut ex.sim, &its, "interchain-token-service", &addrs, &["C05", "C07", "C18", "C06", "C04"], &["C05", "C07", "C11", "C06", "C04"]);
+            }
             if !matches!(op, IOp::Resubmit { .. } | IOp::Advance { .. } | IOp::ProbeSetMeta { .. }) {
                 ex.history.push(op.clone());
             }
